@@ -50,6 +50,14 @@ def stage(chk, quick, rng, pid, cfg, keys, build_universe):
         if len(hs) < 100:
             return machinery_failure(pid, "only %d schedules from MC_Handover (%s)" % (len(hs), name))
         pick = rng.sample(hs, n) if len(hs) > n else hs
+        # always include schedules in which the miner's hand-over (M5) and buffering (M7) fall inside the network thread's rejection path
+        # (between the end of validation and the clean-up of the buffer): the narrowest windows of this model
+        def inside(h_):
+            idx = {(st["t"], st["a"]): i for i, st in enumerate(h_[0])}
+            n5, r2, m5, m7 = idx.get(("net", "N5")), idx.get(("net", "R2")), idx.get(("miner", "M5")), idx.get(("miner", "M7"))
+            return None not in (n5, r2, m5, m7) and n5 < m5 < r2 and m7 < r2
+        narrow = [h_ for h_ in hs if inside(h_)]
+        pick = pick + (rng.sample(narrow, 25) if len(narrow) > 25 else narrow)
         traces, info = [], {}
         for k, (h, out) in enumerate(pick):
             tid = 700000 + ntot
